@@ -123,6 +123,9 @@ pub enum Event {
     MutSite { kind: ValueKind, input: Vec<u8> },
     MutFired { kind: ValueKind, mutator: String },
     MutDone { kind: ValueKind, output: Vec<u8> },
+    /// the registered mutators' `post_process` hooks run between these two
+    PostBegin,
+    PostEnd,
     /// `post_process` changed already emitted bytes
     Rewrite { at: usize, old_len: usize, new_len: usize },
     /// object graph (only when graph recording is on), taken where `StepBegin`/`LoopEnd`/`Done` are
